@@ -18,8 +18,6 @@ from ramses_tx.command import CODE_API_MAP, Command  # noqa: E402
 from ramses_tx.message import Message  # noqa: E402
 
 FINDINGS = [
-    ('C03a:get_zone_setpoint:default',
-     "Command.get_zone_setpoint('01:145038', zone_idx='00')"),
     ('C03b:get_dhw_mode:dhw_idx=ood',
      "Command.get_dhw_mode('01:145038', dhw_idx=2)"),
     ('C03b:get_dhw_params:dhw_idx=ood',
@@ -30,30 +28,26 @@ FINDINGS = [
      "Command.get_mix_valve_params('01:145038', zone_idx='00')"),
     ('C03b:get_opentherm_data:msg_id=unknown-id',
      "Command.get_opentherm_data('10:048122', msg_id=4)"),
-    ('C03b:get_relay_demand:zone_idx=ood',
-     "Command.get_relay_demand('01:145038', zone_idx=16)"),
     ('C03b:get_relay_demand:zone_idx=zone',
      "Command.get_relay_demand('01:145038', zone_idx='FA')"),
-    ('C03b:get_schedule_fragment:frag_number=ood,total_frags=ood',
+    ('C03b:get_schedule_fragment:ood*2',
      "Command.get_schedule_fragment('01:145038', zone_idx='00', frag_number=256, total_frags=256)"),
-    ('C03b:get_schedule_fragment:zone_idx=ood',
-     "Command.get_schedule_fragment('01:145038', zone_idx='10', frag_number=1, total_frags=None)"),
     ('C03b:get_system_log_entry:log_idx=ood',
      "Command.get_system_log_entry('01:145038', log_idx=64)"),
     ('C03b:get_tpi_params:domain_id=ood',
      "Command.get_tpi_params('01:145038', domain_id='F9')"),
     ('C03b:get_zone_config:zone_idx=ood',
-     "Command.get_zone_config('01:145038', zone_idx='10')"),
+     "Command.get_zone_config('01:145038', zone_idx='FA')"),
     ('C03b:get_zone_mode:zone_idx=ood',
-     "Command.get_zone_mode('01:145038', zone_idx='10')"),
+     "Command.get_zone_mode('01:145038', zone_idx='FA')"),
     ('C03b:get_zone_name:zone_idx=ood',
-     "Command.get_zone_name('01:145038', zone_idx='10')"),
-    ('C03b:get_zone_setpoint:default',
-     "Command.get_zone_setpoint('01:145038', zone_idx='00')"),
+     "Command.get_zone_name('01:145038', zone_idx='FA')"),
+    ('C03b:get_zone_setpoint:zone_idx=ood',
+     "Command.get_zone_setpoint('01:145038', zone_idx='FA')"),
     ('C03b:get_zone_temp:zone_idx=ood',
-     "Command.get_zone_temp('01:145038', zone_idx='10')"),
+     "Command.get_zone_temp('01:145038', zone_idx='FA')"),
     ('C03b:get_zone_window_state:zone_idx=ood',
-     "Command.get_zone_window_state('01:145038', zone_idx='10')"),
+     "Command.get_zone_window_state('01:145038', zone_idx='FA')"),
     ('C03b:put_actuator_cycle:cycle_countdown=ood',
      "Command.put_actuator_cycle('13:049798', '18:006402', modulation_level=1.0, actuator_countdown=10, cycle_countdown=7200)"),
     ('C03b:put_actuator_cycle:modulation_level=ood',
@@ -80,96 +74,36 @@ FINDINGS = [
      "Command.set_fan_mode('32:155617', fan_mode=2, idx='01', src_id='37:155617')"),
     ('C03b:set_mix_valve_params:zone_idx=ood',
      "Command.set_mix_valve_params('01:145038', zone_idx='FA')"),
-    ('C03b:set_schedule_fragment:frag_cnt=ood,fragment=ood',
-     "Command.set_schedule_fragment('01:145038', zone_idx='00', frag_num=1, frag_cnt=256, fragment='AAB')"),
-    ('C03b:set_schedule_fragment:frag_num=ood,frag_cnt=ood',
-     "Command.set_schedule_fragment('01:145038', zone_idx='00', frag_num=256, frag_cnt=256, fragment='AABB')"),
     ('C03b:set_schedule_fragment:fragment=ood',
      "Command.set_schedule_fragment('01:145038', zone_idx='00', frag_num=1, frag_cnt=3, fragment='')"),
-    ('C03b:set_schedule_fragment:zone_idx=ood',
-     "Command.set_schedule_fragment('01:145038', zone_idx='10', frag_num=1, frag_cnt=3, fragment='AABB')"),
-    ('C03b:set_tpi_params:cycle_rate=ood,min_off_time=ood',
-     "Command.set_tpi_params('01:145038', domain_id='FC', cycle_rate=64, min_off_time=64)"),
-    ('C03b:set_tpi_params:cycle_rate=ood,min_on_time=ood',
-     "Command.set_tpi_params('01:145038', domain_id='FC', cycle_rate=64, min_on_time=64)"),
+    ('C03b:set_schedule_fragment:ood*2',
+     "Command.set_schedule_fragment('01:145038', zone_idx='00', frag_num=256, frag_cnt=256, fragment='AABB')"),
     ('C03b:set_tpi_params:domain_id=ood',
      "Command.set_tpi_params('01:145038', domain_id='F9')"),
     ('C03b:set_tpi_params:min_on_time=ood',
      "Command.set_tpi_params('01:145038', domain_id='FC', min_on_time=2.5)"),
-    ('C03b:set_tpi_params:min_on_time=ood,min_off_time=ood',
-     "Command.set_tpi_params('01:145038', domain_id='FC', min_on_time=64, min_off_time=64)"),
-    ('C03b:set_tpi_params:proportional_band_width=ood',
-     "Command.set_tpi_params('01:145038', domain_id='FC', proportional_band_width=400.0)"),
+    ('C03b:set_tpi_params:ood*2',
+     "Command.set_tpi_params('01:145038', domain_id='FC', cycle_rate=64, min_on_time=64)"),
     ('C03b:set_zone_config:zone_idx=ood',
      "Command.set_zone_config('01:145038', zone_idx='FA')"),
     ('C03b:set_zone_mode:zone_idx=ood',
-     "Command.set_zone_mode('01:145038', zone_idx='10', mode=None, setpoint=21.5, until=None, duration=None)"),
+     "Command.set_zone_mode('01:145038', zone_idx='FA', mode=None, setpoint=21.5, until=None, duration=None)"),
     ('C03b:set_zone_name:zone_idx=ood',
      "Command.set_zone_name('01:145038', zone_idx='FA', name='Kitchen')"),
     ('C03b:set_zone_setpoint:zone_idx=ood',
      "Command.set_zone_setpoint('01:145038', zone_idx='FA', setpoint=21.5)"),
     ('C03c:put_actuator_cycle:actuator_countdown=ood:actuator_countdown',
      "Command.put_actuator_cycle('13:049798', '18:006402', modulation_level=1.0, actuator_countdown=40000)"),
-    ('C03c:put_dhw_temp:temperature=grid:temperature',
-     "Command.put_dhw_temp('07:045960', temperature=0.29)"),
-    ('C03c:put_dhw_temp:temperature=lsb:temperature',
-     "Command.put_dhw_temp('07:045960', temperature=5.02)"),
-    ('C03c:put_dhw_temp:temperature=ood:temperature',
-     "Command.put_dhw_temp('07:045960', temperature=400.0)"),
-    ('C03c:put_indoor_humidity:indoor_humidity=grid:indoor_humidity',
-     "Command.put_indoor_humidity('37:039266', indoor_humidity=0.29)"),
-    ('C03c:put_indoor_humidity:indoor_humidity=lsb:indoor_humidity',
-     "Command.put_indoor_humidity('37:039266', indoor_humidity=0.29)"),
-    ('C03c:put_outdoor_temp:temperature=grid:outdoor_temp',
-     "Command.put_outdoor_temp('17:111111', temperature=-20.4)"),
-    ('C03c:put_outdoor_temp:temperature=lsb:outdoor_temp',
-     "Command.put_outdoor_temp('17:111111', temperature=5.02)"),
-    ('C03c:put_outdoor_temp:temperature=ood:outdoor_temp',
-     "Command.put_outdoor_temp('17:111111', temperature=400.0)"),
-    ('C03c:put_sensor_temp:temperature=grid:temperature',
-     "Command.put_sensor_temp('34:021943', temperature=-9.95)"),
-    ('C03c:put_sensor_temp:temperature=lsb:temperature',
-     "Command.put_sensor_temp('34:021943', temperature=5.02)"),
-    ('C03c:put_sensor_temp:temperature=ood:temperature',
-     "Command.put_sensor_temp('34:021943', temperature=400.0)"),
-    ('C03c:put_weather_temp:temperature=lsb:temperature',
-     "Command.put_weather_temp('17:111111', temperature=5.02)"),
-    ('C03c:put_weather_temp:temperature=ood:temperature',
-     "Command.put_weather_temp('17:111111', temperature=400.0)"),
     ('C03c:set_bypass_position:bypass_position=frac:bypass_position',
-     "Command.set_bypass_position('32:155617', bypass_position=0.29, src_id='37:155617')"),
-    ('C03c:set_bypass_position:bypass_position=ood:bypass_position',
      "Command.set_bypass_position('32:155617', bypass_position=1.01, src_id='37:155617')"),
-    ('C03c:set_dhw_params:differential=lsb:differential',
-     "Command.set_dhw_params('01:145038', differential=1.13)"),
-    ('C03c:set_dhw_params:setpoint=lsb:setpoint',
-     "Command.set_dhw_params('01:145038', setpoint=32.05)"),
-    ('C03c:set_fan_mode:fan_mode=name,src=src0,seqn=ood:fan_mode',
-     "Command.set_fan_mode('32:155617', fan_mode='high', seqn=256)"),
     ('C03c:set_fan_mode:fan_mode=name,src=src0,seqn=seqn:fan_mode',
-     "Command.set_fan_mode('32:155617', fan_mode='high', seqn='018')"),
+     "Command.set_fan_mode('32:155617', fan_mode='high', seqn=256)"),
     ('C03c:set_fan_param:value=ood:value',
      "Command.set_fan_param('32:155617', param_id='3F', value=2147483647, src_id='37:155617')"),
     ('C03c:set_system_time:datetime=ood:is_dst',
      "Command.set_system_time('01:145038', datetime=None)"),
-    ('C03c:set_tpi_params:proportional_band_width=lsb:proportional_band_width',
-     "Command.set_tpi_params('01:145038', domain_id='FC', proportional_band_width=2.01)"),
-    ('C03c:set_zone_config:max_temp=lsb:max_temp',
-     "Command.set_zone_config('01:145038', zone_idx='00', max_temp=32.05)"),
-    ('C03c:set_zone_config:min_temp=lsb:min_temp',
-     "Command.set_zone_config('01:145038', zone_idx='00', min_temp=5.02)"),
-    ('C03c:set_zone_mode:setpoint=lsb:setpoint',
-     "Command.set_zone_mode('01:145038', zone_idx='00', mode=None, setpoint=5.02, until=None, duration=None)"),
-    ('C03c:set_zone_mode:setpoint=ood:setpoint',
-     "Command.set_zone_mode('01:145038', zone_idx='00', mode=None, setpoint=400.0, until=None, duration=None)"),
     ('C03c:set_zone_name:name=ood:name',
      "Command.set_zone_name('01:145038', zone_idx='00', name='Master Bedroom Suite2')"),
-    ('C03c:set_zone_setpoint:setpoint=grid:setpoint',
-     "Command.set_zone_setpoint('01:145038', zone_idx='00', setpoint=5.02)"),
-    ('C03c:set_zone_setpoint:setpoint=lsb:setpoint',
-     "Command.set_zone_setpoint('01:145038', zone_idx='00', setpoint=5.02)"),
-    ('C03c:set_zone_setpoint:setpoint=ood:setpoint',
-     "Command.set_zone_setpoint('01:145038', zone_idx='00', setpoint=400.0)"),
     ('C03d:set_bypass_position:src=src0',
      "Command.set_bypass_position('32:155617')"),
     ('C03d:set_fan_mode:src=src0',
